@@ -51,13 +51,20 @@ pub struct Target {
 }
 
 #[derive(Clone, Copy, PartialEq)]
-pub enum Mode { Echo, Sink, Greeter, CloseAfter(usize) }
+pub enum Mode { Echo, Sink, Greeter, CloseAfter(usize), SlowSink, Source(usize) }
 
 impl Target {
     /// a TCP target on `ip`: Echo = send back what arrives; Sink = only record; Greeter = send "HELLO" at
-    /// once, then record; CloseAfter(n) = send n bytes of 0x5a then close
+    /// once, then record; CloseAfter(n) = send n bytes of 0x5a then close; SlowSink = record, but with a
+    /// 4 KiB receive buffer, a stall before the first read and pauses between reads (back-pressure on the
+    /// server's outbound socket); Source(n) = send `src_pattern(n)` then half-close
     pub async fn start(ip: &str, mode: Mode) -> Target {
-        let l = TcpListener::bind(format!("{ip}:0")).await.unwrap();
+        let l = if mode == Mode::SlowSink {
+            let sock = tokio::net::TcpSocket::new_v4().unwrap();
+            let _ = sock.set_recv_buffer_size(4096);
+            sock.bind(format!("{ip}:0").parse().unwrap()).unwrap();
+            sock.listen(16).unwrap()
+        } else { TcpListener::bind(format!("{ip}:0")).await.unwrap() };
         let addr = l.local_addr().unwrap();
         let conns = Arc::new(Mutex::new(Vec::<Conn>::new()));
         let accepted = Arc::new(AtomicUsize::new(0));
@@ -71,11 +78,16 @@ impl Target {
                 tokio::spawn(async move {
                     if mode == Mode::Greeter { let _ = s.write_all(b"HELLO").await; }
                     if let Mode::CloseAfter(n) = mode { let _ = s.write_all(&vec![0x5a; n]).await; let _ = s.shutdown().await; }
-                    let mut buf = vec![0u8; 65536];
+                    if let Mode::Source(n) = mode { let _ = s.write_all(&src_pattern(n)).await; let _ = s.shutdown().await; }
+                    if mode == Mode::SlowSink { tokio::time::sleep(Duration::from_millis(400)).await; }
+                    let mut buf = vec![0u8; if mode == Mode::SlowSink { 24 * 1024 + 7 } else { 65536 }];
+                    let mut reads = 0u64;
                     loop {
                         match s.read(&mut buf).await {
                             Ok(0) => { c3.lock().unwrap()[idx].eof = true; break; }
                             Ok(n) => {
+                                reads += 1;
+                                if mode == Mode::SlowSink && reads % 8 == 0 { tokio::time::sleep(Duration::from_millis(2)).await; }
                                 c3.lock().unwrap()[idx].bytes.extend_from_slice(&buf[..n]);
                                 if mode == Mode::Echo { if s.write_all(&buf[..n]).await.is_err() { break; } }
                             }
@@ -90,6 +102,31 @@ impl Target {
     pub fn snapshot(&self) -> Vec<Conn> { self.conns.lock().unwrap().clone() }
 }
 impl Drop for Target { fn drop(&mut self) { self.task.abort(); } }
+
+/// what a `Mode::Source(n)` target sends
+pub fn src_pattern(n: usize) -> Vec<u8> { (0..n).map(|i| ((i % 251) as u8) ^ (((i / 251) % 241) as u8)).collect() }
+
+/// a loopback address that neither accepts nor refuses: a listener with backlog 1 that never accepts and
+/// whose accept queue is full (Linux then drops further SYNs).  None when the queue could not be
+/// saturated on this host.  The returned values must be kept alive for as long as the hole is needed.
+pub async fn blackhole() -> Option<(SocketAddr, TcpListener, Vec<TcpStream>)> {
+    let sock = tokio::net::TcpSocket::new_v4().ok()?;
+    sock.bind("127.0.0.1:0".parse().unwrap()).ok()?;
+    let l = sock.listen(1).ok()?;
+    let addr = l.local_addr().ok()?;
+    let mut keep = vec![];
+    for _ in 0..16 {
+        match tokio::time::timeout(Duration::from_millis(300), TcpStream::connect(addr)).await {
+            Ok(Ok(s)) => keep.push(s),
+            Ok(Err(_)) => return None,
+            Err(_) => {
+                // one more probe: it must hang as well
+                return match tokio::time::timeout(Duration::from_millis(300), TcpStream::connect(addr)).await { Err(_) => Some((addr, l, keep)), _ => None };
+            }
+        }
+    }
+    None
+}
 
 /// counting TCP relay in front of the server
 pub struct Relay { pub addr: SocketAddr, pub accepted: Arc<AtomicUsize>, task: tokio::task::JoinHandle<()> }
@@ -183,8 +220,14 @@ impl World {
 }
 
 /// SOCKS5 CONNECT through the front-end; returns the connected stream after the reply, or the reply code
-pub async fn socks_connect(front: SocketAddr, atyp: u8, addr: &[u8], port: u16) -> Result<TcpStream, String> {
-    let mut s = TcpStream::connect(front).await.map_err(|e| e.to_string())?;
+pub async fn socks_connect(front: SocketAddr, atyp: u8, addr: &[u8], port: u16) -> Result<TcpStream, String> { socks_connect_opts(front, atyp, addr, port, None).await }
+
+/// the same, optionally with a small receive buffer on the application's socket
+pub async fn socks_connect_opts(front: SocketAddr, atyp: u8, addr: &[u8], port: u16, rcvbuf: Option<u32>) -> Result<TcpStream, String> {
+    let mut s = match rcvbuf {
+        None => TcpStream::connect(front).await.map_err(|e| e.to_string())?,
+        Some(n) => { let sock = tokio::net::TcpSocket::new_v4().map_err(|e| e.to_string())?; let _ = sock.set_recv_buffer_size(n); sock.connect(front).await.map_err(|e| e.to_string())? }
+    };
     s.write_all(&[5, 1, 0]).await.map_err(|e| e.to_string())?;
     let mut r = [0u8; 2];
     tokio::time::timeout(GUARD, s.read_exact(&mut r)).await.map_err(|_| "guard")?.map_err(|e| e.to_string())?;
